@@ -21,6 +21,7 @@ mod c15;
 mod c16;
 mod c18;
 mod c19;
+mod c20;
 mod core;
 mod ev;
 mod vgen;
@@ -101,6 +102,7 @@ fn main() {
                     "c13" => c13::replay(c, &setup),
                     "c14" => c14::replay(c),
                     "c16" => c16::replay(c),
+                    "c20" => c20::replay(c),
                     "c15" => c15::replay(c, &ls),
                     _ => {
                         eprintln!("unknown property {prop}");
@@ -115,6 +117,7 @@ fn main() {
             let out = match prop {
                 "c02" => c02::record(seed, n, cli.as_deref()),
                 "c16" => c16::record(seed, n, cli.as_deref()),
+                "c20" => c20::record(seed, n),
                 "c18" => c18::record(cli.as_deref().expect("--cli"), args.iter().any(|a| a == "--thorough")),
                 "c03" => c03::record(seed, n),
                 "c04" => c04::record(seed, n),
